@@ -223,7 +223,14 @@ func c25Run(c *fx.Ctx) {
 				continue
 			}
 			// every other kind gets a different format, so a format taken from the wrong kind's setting shows
-			for _, others := range []configuration.CTENumericFormat{c25Formats[(fi+1)%len(c25Formats)], c25Formats[(fi+3)%len(c25Formats)], c25Formats[(fi+6)%len(c25Formats)]} {
+			otherFormats := []configuration.CTENumericFormat{c25Formats[(fi+1)%len(c25Formats)], c25Formats[(fi+3)%len(c25Formats)], c25Formats[(fi+6)%len(c25Formats)]}
+			if c.Thorough() { // every other format, and every ordered pair of elements
+				otherFormats = nil
+				for d := 1; d < len(c25Formats); d++ {
+					otherFormats = append(otherFormats, c25Formats[(fi+d)%len(c25Formats)])
+				}
+			}
+			for _, others := range otherFormats {
 				for _, form := range []string{"whole", "one-chunk", "two-chunks"} {
 					c25Case(c, k, f, others, nil, form)
 					for _, e := range elems {
@@ -231,6 +238,13 @@ func c25Run(c *fx.Ctx) {
 					}
 					for i := 0; i+1 < len(elems); i += 2 {
 						c25Case(c, k, f, others, []uint64{elems[i+1], elems[i]}, form)
+					}
+					if c.Thorough() && others == otherFormats[0] {
+						for _, a := range elems {
+							for _, b := range elems {
+								c25Case(c, k, f, others, []uint64{a, b}, form)
+							}
+						}
 					}
 					c25Case(c, k, f, others, elems[:5], form)
 					c25Case(c, k, f, others, elems, form)
@@ -245,7 +259,7 @@ func init() {
 		ID:    "C25",
 		Level: "exploration",
 		Rule: "the whole configuration space: 11 typed array kinds × 8 numeric formats (decimal, zero-fill flag, binary, octal, hexadecimal, each plain and zero-filled), with every OTHER kind set to a different format (3 choices) so a setting read from the wrong kind shows; × element alphabets (integers: 0,1,7..16,100, sign boundaries, max, alternating bits; floats: ±0, ±1, fractions, powers, 2^63, 2^64, ±inf, subnormals, extremes, quiet/signalling NaNs with payloads) " +
-			"as empty, single, pair, 5-element and full-alphabet arrays × 3 deliveries (whole, one chunk, two chunks with split data); oracle: the written CTE decodes and the array bytes are identical (NaN: quiet/signalling kind only); distinct_nontrivial = distinct written texts",
+			"as empty, single, pair (thorough: every ordered pair, and every other format instead of 3), 5-element and full-alphabet arrays × 3 deliveries (whole, one chunk, two chunks with split data); oracle: the written CTE decodes and the array bytes are identical (NaN: quiet/signalling kind only); distinct_nontrivial = distinct written texts",
 		Assumptions: []string{"NaN elements keep only their quiet/signalling kind"},
 		TrustedBase: []string{"the default-configured CTE decoder as reader"},
 		Guards:      map[string]int64{"evaluations": 20000},
